@@ -131,9 +131,30 @@ func trunc(s string) string {
 }
 
 func runFormat(r *hv.Rand, f *xw.Format, nValues, mutPerValue, nRandom int) {
-	for k := 0; k < nValues; k++ {
-		v := f.Gen(r)
-		enc := valueCase(r, f, v, "value")
+	if f.Corpus != nil {
+		for _, b := range f.Corpus() {
+			bytesCase(r, f, b, "corpus")
+			if f == xw.Ag {
+				bytesCase(r, xw.ConfDen, b, "corpus")
+			}
+		}
+	}
+	var must []xw.Value
+	if f.Must != nil {
+		must = f.Must()
+	}
+	for k := 0; k < len(must)+nValues; k++ {
+		var v xw.Value
+		class := "value"
+		if k < len(must) {
+			v, class = must[k], "boundary"
+		} else {
+			v = f.Gen(r)
+		}
+		enc := valueCase(r, f, v, class)
+		if k < len(must) && k%3 != 0 { // mutate a third of the boundary encodings
+			continue
+		}
 		if enc == nil || len(enc) > 3000 {
 			continue
 		}
@@ -162,7 +183,7 @@ func coqFlags(v tubes.VerifWireFrame) string {
 func coqFrame(v tubes.VerifWireFrame) string {
 	return hv.App("Fr", hv.N(uint64(v.AckNo)), hv.N(uint64(v.FrameNo)), hv.N(uint64(v.DataLength)), coqFlags(v), hv.N(uint64(v.TubeID)), xw.CoqBytes(v.Data))
 }
-func coqIFrame(v tubes.VerifInitFrame) string {
+func coqIFrame(v tubes.VerifWireInitFrame) string {
 	fl := hv.App("Fl", hv.B(v.REQ), hv.B(v.RESP), hv.B(v.REL), hv.B(v.ACK), hv.B(v.FIN), hv.B(v.RTR))
 	return hv.App("Ifr", hv.N(uint64(v.FrameNo)), hv.N(uint64(v.TubeID)), hv.N(uint64(v.TubeType)), xw.CoqBytes(v.Data), hv.N(uint64(v.DataLength)), fl)
 }
@@ -194,7 +215,7 @@ func exact(b []byte) []byte { // capacity = length, so Go's cap-based slice chec
 func fromBytesCase(b []byte, class string) {
 	var got tubes.VerifWireFrame
 	var err error
-	p, msg := hv.Catch(func() { got, err = tubes.VerifFromBytes(exact(b)) })
+	p, msg := hv.Catch(func() { got, err = tubes.VerifWireFromBytes(exact(b)) })
 	code := xw.OK
 	vd := good()
 	if p {
@@ -205,7 +226,7 @@ func fromBytesCase(b []byte, class string) {
 		got = tubes.VerifWireFrame{}
 	} else {
 		// stability: re-encoding what was parsed parses to the same frame
-		again, err2 := tubes.VerifFromBytes(tubes.VerifFrameToBytes(got))
+		again, err2 := tubes.VerifWireFromBytes(tubes.VerifWireFrameToBytes(got))
 		if err2 != nil || !eqFrame(again, got) {
 			vd = bad("C18:frame-not-stable", "fromBytes(toBytes(f)) differs from f for a parsed frame")
 		}
@@ -217,8 +238,8 @@ func fromBytesCase(b []byte, class string) {
 		Desc: "fromBytes #" + ident(b), Spec: vd.ok, Sig: vd.sig, What: vd.what, NT: len(b) >= 4,
 		Replay: map[string]interface{}{"format": "frame", "op": "fromBytes", "len": len(b), "hex": hex.EncodeToString(clip(b))}})
 	// the muxer's re-framing of the same buffer (peer-reachable)
-	var ig tubes.VerifInitFrame
-	p, msg = hv.Catch(func() { ig, err = tubes.VerifReframe(exact(b)) })
+	var ig tubes.VerifWireInitFrame
+	p, msg = hv.Catch(func() { ig, err = tubes.VerifWireReframe(exact(b)) })
 	code = xw.OK
 	vd = good()
 	if p {
@@ -226,7 +247,7 @@ func fromBytesCase(b []byte, class string) {
 		vd = bad("C18:reframe-panics", "fromInitiateBytes(frame.toBytes()) panicked: %s", msg)
 	} else if err != nil {
 		code = xw.ERR
-		ig = tubes.VerifInitFrame{}
+		ig = tubes.VerifWireInitFrame{}
 	}
 	hv.Emit(hv.Case{Fn: "c18_reframe", Coq: hv.Tuple(xw.CoqBytes(b), hv.Ni(code), coqIFrame(ig)), Class: "frame/reframe-" + class,
 		Desc: "reframe #" + ident(b), Spec: vd.ok, Sig: vd.sig, What: vd.what, NT: len(b) >= 4,
@@ -237,11 +258,11 @@ func frames(r *hv.Rand) {
 	n := hv.Scale(70, 2000)
 	for k := 0; k < n; k++ {
 		f := genFrame(r)
-		b := tubes.VerifFrameToBytes(f)
+		b := tubes.VerifWireFrameToBytes(f)
 		vd := good()
 		if int(f.DataLength) == len(f.Data) {
 			junk := r.Bytes(r.Intn(20))
-			back, err := tubes.VerifFromBytes(append(append([]byte(nil), b...), junk...))
+			back, err := tubes.VerifWireFromBytes(append(append([]byte(nil), b...), junk...))
 			if err != nil || !eqFrame(back, f) {
 				vd = bad("C18:frame-roundtrip", "fromBytes(toBytes(f) ++ junk) differs from f")
 			}
@@ -279,12 +300,12 @@ func frames(r *hv.Rand) {
 	// initiate frames
 	for k := 0; k < hv.Scale(40, 600); k++ {
 		n := hv.Pick(r, []int{0, 0, 0, 1, 5, 100})
-		f := tubes.VerifInitFrame{FrameNo: hv.Pick(r, u32s), TubeID: byte(r.Intn(256)), TubeType: byte(r.Intn(256)), Data: xw.PatternD(n, byte(r.U64()), byte(r.Intn(4))), DataLength: uint16(n)}
+		f := tubes.VerifWireInitFrame{FrameNo: hv.Pick(r, u32s), TubeID: byte(r.Intn(256)), TubeType: byte(r.Intn(256)), Data: xw.PatternD(n, byte(r.U64()), byte(r.Intn(4))), DataLength: uint16(n)}
 		m := r.Intn(64)
 		f.REQ, f.RESP, f.REL, f.ACK, f.FIN, f.RTR = m&1 != 0, m&2 != 0, m&4 != 0, m&8 != 0, m&16 != 0, m&32 != 0
-		b := tubes.VerifInitToBytes(f)
-		var back tubes.VerifInitFrame
-		p, msg := hv.Catch(func() { back = tubes.VerifFromInitiateBytes(exact(b)) })
+		b := tubes.VerifWireInitToBytes(f)
+		var back tubes.VerifWireInitFrame
+		p, msg := hv.Catch(func() { back = tubes.VerifWireFromInitiateBytes(exact(b)) })
 		vd := good()
 		if p {
 			vd = bad("C18:iframe-roundtrip", "fromInitiateBytes panicked on toBytes output: %s", msg)
@@ -296,12 +317,12 @@ func frames(r *hv.Rand) {
 			Desc: "initiateFrame.toBytes #" + ident(b), Spec: vd.ok, Sig: vd.sig, What: vd.what, NT: true})
 		// direct fromInitiateBytes on arbitrary buffers: internal function without checks, only compared with the model
 		for _, mb := range [][]byte{b, b[:r.Intn(len(b)+1)], setLen(b, hv.Pick(r, []int{0, 1, n + 1, 65525, 65526, 65535}))} {
-			var g tubes.VerifInitFrame
-			p, _ := hv.Catch(func() { g = tubes.VerifFromInitiateBytes(exact(mb)) })
+			var g tubes.VerifWireInitFrame
+			p, _ := hv.Catch(func() { g = tubes.VerifWireFromInitiateBytes(exact(mb)) })
 			code := xw.OK
 			if p {
 				code = xw.PANIC
-				g = tubes.VerifInitFrame{}
+				g = tubes.VerifWireInitFrame{}
 			}
 			hv.Emit(hv.Case{Fn: "c18_iframe_from_bytes", Coq: hv.Tuple(xw.CoqBytes(mb), hv.Ni(code), coqIFrame(g)), Class: "iframe/bytes",
 				Desc: "fromInitiateBytes #" + ident(mb), Spec: true, NT: len(mb) >= 4})
@@ -314,7 +335,7 @@ func frames(r *hv.Rand) {
 		var q []byte
 		var wn int
 		var err error
-		p, pm := hv.Catch(func() { q, wn, err = tubes.VerifUnreliableWrite(id, no, msg) })
+		p, pm := hv.Catch(func() { q, wn, err = tubes.VerifWireUnreliableWrite(id, no, msg) })
 		code := xw.OK
 		vd := good()
 		switch {
@@ -328,7 +349,7 @@ func frames(r *hv.Rand) {
 				vd = bad("C18:unreliable-rejects-representable", "WriteMsgUDP refused a %d-byte message", n)
 			}
 		default:
-			back, e2 := tubes.VerifFromBytes(q)
+			back, e2 := tubes.VerifWireFromBytes(q)
 			if n > 32768 {
 				vd = bad("C18:unreliable-encodes-unrepresentable", "WriteMsgUDP accepted a %d-byte message (limit 32768); framed with dataLength %d", n, int(q[2])<<8|int(q[3]))
 			} else if e2 != nil || !bytes.Equal(back.Data, msg) || int(back.DataLength) != n || wn != n || len(q) != 12+n {
@@ -353,11 +374,11 @@ func setLen(b []byte, dl int) []byte {
 var relMsg = &xw.Format{
 	Name: "relmsg", EncFn: "c18_enc_relmsg", DecFn: "c18_dec_relmsg",
 	Enc: func(v xw.Value) ([]byte, bool) {
-		s, _, err := tubes.VerifReliableWriteMsgUDP(v.([]byte))
+		s, _, err := tubes.VerifWireReliableWriteMsgUDP(v.([]byte))
 		return s, err == nil
 	},
 	Dec: func(b []byte) (xw.Value, int, bool) {
-		m, left, err := tubes.VerifReliableReadMsgUDP(b)
+		m, left, err := tubes.VerifWireReliableReadMsgUDP(b)
 		return append([]byte(nil), m...), left, err == nil
 	},
 	Coq:  func(v xw.Value) string { return xw.CoqBytes(v.([]byte)) },
@@ -373,20 +394,20 @@ func main() {
 	r := hv.NewRand(hv.Seed())
 	// budget: the quick tier stays below ~4000 model-compared cases
 	type plan struct {
-		f             *xw.Format
-		nv, mut, rnd  int
+		f            *xw.Format
+		nv, mut, rnd int
 	}
 	plans := []plan{
-		{xw.WString, hv.Scale(24, 400), 8, hv.Scale(12, 200)},
-		{xw.Name, hv.Scale(28, 400), 8, hv.Scale(12, 200)},
-		{xw.Chunk, hv.Scale(36, 400), 8, hv.Scale(12, 200)},
-		{xw.Cert, hv.Scale(24, 300), 10, hv.Scale(8, 100)},
-		{xw.Intent, hv.Scale(40, 500), 12, hv.Scale(8, 100)},
-		{xw.Ag, hv.Scale(36, 500), 5, hv.Scale(12, 200)},
-		{xw.Proxy, hv.Scale(14, 200), 5, hv.Scale(8, 100)},
-		{xw.Exec, hv.Scale(26, 300), 8, hv.Scale(12, 200)},
-		{xw.UserAuth, hv.Scale(26, 300), 6, hv.Scale(12, 200)},
-		{xw.Pf, hv.Scale(36, 400), 7, hv.Scale(12, 200)},
+		{xw.WString, hv.Scale(12, 400), 7, hv.Scale(10, 200)},
+		{xw.Name, hv.Scale(14, 400), 7, hv.Scale(10, 200)},
+		{xw.Chunk, hv.Scale(20, 400), 7, hv.Scale(10, 200)},
+		{xw.Cert, hv.Scale(10, 300), 8, hv.Scale(6, 100)},
+		{xw.Intent, hv.Scale(20, 500), 10, hv.Scale(6, 100)},
+		{xw.Ag, hv.Scale(20, 500), 5, hv.Scale(10, 200)},
+		{xw.Proxy, hv.Scale(8, 200), 5, hv.Scale(6, 100)},
+		{xw.Exec, hv.Scale(14, 300), 8, hv.Scale(10, 200)},
+		{xw.UserAuth, hv.Scale(14, 300), 6, hv.Scale(10, 200)},
+		{xw.Pf, hv.Scale(16, 400), 7, hv.Scale(10, 200)},
 	}
 	for _, p := range plans {
 		runFormat(r, p.f, p.nv, p.mut, p.rnd)
